@@ -770,4 +770,115 @@ theorem readAtoms_perm {rows₁ rows₂ : List Line} (atomsColumns : Nat) (s : L
       · exact applyFlags_perm s1 _ hp (hdf cols · hc)
       · rfl
 
+
+/-- the loader on the text of any data document laid out like the writer's (not only those of a system). -/
+theorem loadData_dataDoc {f : Fmt} (hf : Readable f) (style : String) (p : DataParts) (u : Units) (lf : Option ℚ)
+    (hlf : lengthFactor u = .ok lf)
+    (hwords : (styleWords style).map strTok ≠ [] ∧ ∀ t ∈ (styleWords style).map strTok, CleanTok t)
+    (hne : p.rows ≠ []) (hr : ∀ r ∈ p.rows, r ≠ []) (hv : ∀ vr, p.vel = some vr → ∀ r ∈ vr, r ≠ [])
+    (pbc : V3 Bool) (symbols : Option (List (Option String))) (styleArg : Option String) :
+    loadData (renderLines (dataDocOf f style p)) pbc symbols styleArg u =
+      (fpFinish (dataFP f lf ((styleWords style).map strTok) p) false).bind fun fp =>
+        loadDataCore fp (dataRowsA f p) (p.vel.map (rowsDoc f)) pbc symbols styleArg u := by
+  unfold loadData
+  rw [loadDataLines_eq_sig, splitLines_renderLines _ (dataDoc_no_newline hf style p hwords.2),
+    sig_dataDoc hf style p hwords hr hv]
+  have hshort : decide (((dataDocOf f style p).map joinSp).length ≤ 1) = false := by
+    unfold dataDocOf; simp
+  rw [hshort]
+  unfold loadDataSig
+  simp only [hlf, bind, Except.bind]
+  rw [fpLoopA_dataSigs hf lf _ p hne hr hv]
+  simp only [Option.getD_some]
+
+theorem fpFinish_natoms (s : FP) (fp : FirstPass) (h : fpFinish s false = .ok fp) :
+    ∃ n : Int, s.natoms = some n ∧ fp.natoms = n.toNat := by
+  unfold fpFinish at h
+  cases hn : s.natoms with
+  | none => simp [hn, bind, Except.bind, throw, throwThe, MonadExceptOf.throw] at h
+  | some n =>
+    refine ⟨n, rfl, ?_⟩
+    cases hx : s.x <;> cases hy : s.y <;> cases hz : s.z <;> cases ha : s.atomsStart <;>
+      simp [hn, hx, hy, hz, ha, bind, Except.bind, pure, Except.pure, throw, throwThe, MonadExceptOf.throw] at h
+    rename_i x y z k
+    cases hb : Box.ofHiLos? x.1 x.2 y.1 y.2 z.1 z.2 s.xy s.xz s.yz with
+    | none => simp [hb] at h
+    | some b =>
+      simp only [hb] at h
+      by_cases hneg : n < 0
+      · simp [hneg] at h
+      · simp only [hneg, if_false] at h
+        injection h with h
+        rw [← h]
+
+theorem take_rows_append (rows rest : List Line) : (rows ++ rest).take rows.length = rows := by
+  simp
+
+/-- **load_perm_invariant, file level**: two data files laid out like the writer's that differ only in the order of
+    their atom lines (all of the same width, as many as the header says, distinct ids) load identically. -/
+theorem data_file_rows_perm {f : Fmt} (hf : Readable f) (style : String) (p p' : DataParts) (u : Units)
+    (hwords : (styleWords style).map strTok ≠ [] ∧ ∀ t ∈ (styleWords style).map strTok, CleanTok t)
+    (hsame : p'.natoms = p.natoms ∧ p'.natypes = p.natypes ∧ p'.hilo = p.hilo ∧ p'.vel = p.vel)
+    (hperm : p'.rows.Perm p.rows) (hn : p.natoms = p.rows.length) (m : Nat) (hm : ∀ r ∈ p.rows, r.length = m)
+    (hne : p.rows ≠ []) (hm0 : m ≠ 0) (hv : ∀ vr, p.vel = some vr → ∀ r ∈ vr, r ≠ [])
+    (pbc : V3 Bool) (symbols : Option (List (Option String))) (styleArg : Option String)
+    (hid : ∀ st cols, lookupCols Gen.LoadStyles.atomStyles st u = .ok cols → idIndex cols = some 0)
+    (hd : ∀ st cols t, lookupCols Gen.LoadStyles.atomStyles st u = .ok cols →
+      readTable (rowsDoc f p.rows) (colsWidth cols) true = .ok t → (t.map (rowKey 0)).Nodup)
+    (hdf : ∀ st cols fl, lookupCols Gen.LoadStyles.atomStyles st u = .ok cols →
+      (rowsDoc f p.rows).mapM (readFlagRow (colsWidth cols)) = .ok fl → (fl.map (·.1)).Nodup) :
+    loadData (renderLines (dataDocOf f style p)) pbc symbols styleArg u =
+      loadData (renderLines (dataDocOf f style p')) pbc symbols styleArg u := by
+  cases hlf : lengthFactor u with
+  | error e => unfold loadData loadDataLines; simp [hlf, bind, Except.bind]
+  | ok lf =>
+    obtain ⟨h1, h2, h3, h4⟩ := hsame
+    have hr : ∀ r ∈ p.rows, r ≠ [] := fun r hr h => hm0 (by rw [← hm r hr, h]; rfl)
+    have hr' : ∀ r ∈ p'.rows, r ≠ [] := fun r hr0 => hr r (hperm.subset hr0)
+    have hne' : p'.rows ≠ [] := fun h => hne (by have := hperm.length_eq; rw [h] at this; exact List.length_eq_zero_iff.mp this.symm)
+    have hv' : ∀ vr, p'.vel = some vr → ∀ r ∈ vr, r ≠ [] := by rw [h4]; exact hv
+    rw [loadData_dataDoc hf style p u lf hlf hwords hne hr hv, loadData_dataDoc hf style p' u lf hlf hwords hne' hr' hv']
+    -- the first-pass results agree: only the width of the first atom line could differ, and all widths are `m`
+    have hcol : ((rowsDoc f p'.rows).headD []).length = ((rowsDoc f p.rows).headD []).length := by
+      obtain ⟨a, as, ha⟩ := List.exists_cons_of_ne_nil hne
+      obtain ⟨b, bs, hb⟩ := List.exists_cons_of_ne_nil hne'
+      rw [ha, hb]
+      simp only [rowsDoc, List.map_cons, List.headD_cons, List.length_map]
+      rw [hm a (by rw [ha]; exact List.mem_cons_self), hm b (hperm.subset (by rw [hb]; exact List.mem_cons_self))]
+    have hfp : dataFP f lf ((styleWords style).map strTok) p' = dataFP f lf ((styleWords style).map strTok) p := by
+      unfold dataFP
+      rw [h1, h2, h3, h4, hcol]
+    rw [hfp]
+    cases hfin : fpFinish (dataFP f lf ((styleWords style).map strTok) p) false with
+    | error e => rfl
+    | ok fp =>
+      simp only [Except.bind]
+      have hnat : fp.natoms = p.rows.length := by
+        obtain ⟨n, hn1, hn2⟩ := fpFinish_natoms _ fp hfin
+        simp only [dataFP, Option.some.injEq] at hn1
+        rw [hn2, ← hn1, ← hn]
+        simp
+      unfold loadDataCore
+      have hlen' : p'.rows.length = p.rows.length := hperm.length_eq
+      have t1 : (dataRowsA f p).take fp.natoms = rowsDoc f p.rows := by
+        unfold dataRowsA
+        rw [hnat]
+        have : p.rows.length = (rowsDoc f p.rows).length := by simp [rowsDoc]
+        rw [this]; exact take_rows_append _ _
+      have t2 : (dataRowsA f p').take fp.natoms = rowsDoc f p'.rows := by
+        unfold dataRowsA
+        rw [hnat, ← hlen']
+        have : p'.rows.length = (rowsDoc f p'.rows).length := by simp [rowsDoc]
+        rw [this]; exact take_rows_append _ _
+      rw [t1, t2, h4]
+      have hp2 : (rowsDoc f p.rows).Perm (rowsDoc f p'.rows) := by unfold rowsDoc; exact (hperm.symm).map _
+      simp only [bind, Except.bind]
+      split
+      · rfl
+      · cases hst : chooseStyle styleArg fp.hint with
+        | error e => rfl
+        | ok st =>
+          simp only []
+          rw [readAtoms_perm fp.atomsColumns _ st u hp2 (hid st) (hd st) (hdf st)]
+
 end Atomman.C08
